@@ -184,7 +184,7 @@ static void build_seeds() {
       std::string anc; std::string hist; for (int i = 0; i < 8; ++i) c11::app_be(hist, 2, 100 * i); anc += png_chunk_bytes("hIST", hist);
       anc += png_chunk_bytes("tRNS", std::string("\x00\x40\x80\xff", 4));
       anc += png_chunk_bytes("bKGD", std::string("\x03", 1));
-      add_seed(v, "c-pal8-6x4+hIST-tRNS-bKGD", "pal8-ancillary", b.substr(0, after_plte) + anc + b.substr(after_plte), 2, false); }
+      add_seed(v, "c-pal8-6x4+hIST-tRNS-bKGD", "pal8-ancillary", b.substr(0, after_plte) + anc + b.substr(after_plte), 2, false, true); }
     add_seed(v, "c-rgb8-5x4+tEXt20000", "rgb8-longtext", png_insert_after_ihdr(png_build(5, 4, 8, 2, 0, 0, 5), png_text_chunk(false, 20000, 601)), 1, false);
     add_seed(v, "c-rgb8-5x4+zTXt20000", "rgb8-longtext", png_insert_after_ihdr(png_build(5, 4, 8, 2, 0, 0, 5), png_text_chunk(true, 20000, 602)), 1, false);
     struct { const char* f; const char* variant; int kind; bool rep; } fx[] = {
@@ -329,7 +329,7 @@ struct F_jpeg {
     static std::string fixup(std::string const& b) { return b; }
     static std::vector<enum_field_t> enum_fields(seed_t const& s) {
         std::vector<enum_field_t> v;
-        std::vector<uint64_t> hv; for (unsigned h = 0; h <= 4; ++h) for (unsigned w = 0; w <= 4; ++w) hv.push_back(h * 16 + w);
+        std::vector<uint64_t> hv = { 0x00, 0x10, 0x01, 0x11, 0x12, 0x21, 0x22, 0x13, 0x31, 0x14, 0x41, 0x24, 0x42, 0x33, 0x44 };
         for (auto const& g : jpeg_segments(s.bytes)) {
             unsigned o = (unsigned)g.off;
             if (g.marker == 0xE0) { v.push_back({ { "app0_units", o + 11, 1, true }, vrange(0, 4) }); v.push_back({ { "app0_version", o + 9, 2, true }, { 0x0100, 0x0101, 0x0102, 0x0200 } }); v.push_back({ { "app0_thumb", o + 16, 2, true }, { 0x0101, 0x0202, 0x1010 } }); }
@@ -350,7 +350,7 @@ struct F_jpeg {
                 unsigned nc = (unsigned char)s.bytes[o + 4];
                 v.push_back({ { "sos_ncomp", o + 4, 1, true }, vrange(0, 5) });
                 static const char* tb[] = { "sos_comp1_tables", "sos_comp2_tables", "sos_comp3_tables", "sos_comp4_tables" };
-                for (unsigned c = 0; c < nc && c < 4; ++c) v.push_back({ { tb[c], o + 6 + 2 * c, 1, true }, { 0x00, 0x01, 0x10, 0x11, 0x02, 0x20, 0x12, 0x21, 0x22, 0x03, 0x30, 0x33, 0x44 } });
+                for (unsigned c = 0; c < nc && c < 4; ++c) v.push_back({ { tb[c], o + 6 + 2 * c, 1, true }, { 0x00, 0x01, 0x10, 0x11, 0x02, 0x20, 0x22, 0x33 } });
                 unsigned e = o + 5 + 2 * nc;
                 v.push_back({ { "sos_Ss", e, 1, true }, vrange(0, 3, { 62, 63, 64 }) }); v.push_back({ { "sos_Se", e + 1, 1, true }, vrange(0, 3, { 62, 63, 64 }) });
                 v.push_back({ { "sos_AhAl", e + 2, 1, true }, { 0x00, 0x01, 0x10, 0x11, 0x0D, 0xD0, 0x0E, 0xFF } });
@@ -430,12 +430,12 @@ static void build_seeds() {
     add_seed(v, "w-gray8-17x33", "gray8", written(gil::const_view(smooth_image<gil::gray8_image_t>(17, 33, 36)), wi), 0, false);
     add_fixture(v, "jpeg", "EddDawson/36dpi.jpg", "rgb8-density", 1, true);
     add_fixture(v, "jpeg", "test.jpg", "rgb8-large", 1, false);
-    add_seed(v, "j-rgb8-19x13-progressive", "rgb8-progressive", jpeg_encode(19, 13, 3, true, 0, false, 2, 2, 81), 1, true);
-    add_seed(v, "j-rgb8-19x13-restart1", "rgb8-restart", jpeg_encode(19, 13, 3, false, 1, false, 2, 2, 82), 1, true);
-    add_seed(v, "j-gray8-19x13-progressive-restart", "gray8-progressive", jpeg_encode(19, 13, 1, true, 2, true, 1, 1, 83), 0, false);
-    add_seed(v, "j-rgb8-17x9-444-optimized", "rgb8-444", jpeg_encode(17, 9, 3, false, 0, true, 1, 1, 84), 1, false);
-    add_seed(v, "j-rgb8-33x9-411", "rgb8-411", jpeg_encode(33, 9, 3, false, 0, false, 4, 1, 85), 1, false);
-    add_seed(v, "j-cmyk8-17x9-restart3", "cmyk8-restart", jpeg_encode(17, 9, 4, false, 3, false, 2, 1, 86), 2, false);
+    add_seed(v, "j-rgb8-19x13-progressive", "rgb8-progressive", jpeg_encode(19, 13, 3, true, 0, false, 2, 2, 81), 1, true, true);
+    add_seed(v, "j-rgb8-19x13-restart1", "rgb8-restart", jpeg_encode(19, 13, 3, false, 1, false, 2, 2, 82), 1, false, true);
+    add_seed(v, "j-gray8-19x13-progressive-restart", "gray8-progressive", jpeg_encode(19, 13, 1, true, 2, true, 1, 1, 83), 0, false, true);
+    add_seed(v, "j-rgb8-17x9-444-optimized", "rgb8-444", jpeg_encode(17, 9, 3, false, 0, true, 1, 1, 84), 1, false, true);
+    add_seed(v, "j-rgb8-33x9-411", "rgb8-411", jpeg_encode(33, 9, 3, false, 0, false, 4, 1, 85), 1, false, true);
+    add_seed(v, "j-cmyk8-17x9-restart3", "cmyk8-restart", jpeg_encode(17, 9, 4, false, 3, false, 2, 1, 86), 2, false, true);
     // valid files with a long ignorable marker segment right after SOI (appended last: targeted() indexes the seeds above).
     // GIL's source manager refills a 4096-byte buffer; skipping such a segment needs several refills.
     std::string base = v[1].bytes;
